@@ -86,7 +86,7 @@ def r1(ctx, prog):
         ctx.check(R, ok, f.where(), "%s forwards to %s with arguments %s (found %s -> %s)" % (sym, tgt, perm, f.nodes[cs[0]]["callee"] if cs else None, got), key="C19.R1:%s" % sym)
         # role agreement: the parameter named `alignment` of the symbol must land in the target's alignment position
         if ok and sym in PARAM_ROLES and tgt in TARGET_ROLES and tgt in prog.fns:
-            tnames = [p["n"] for p in prog.fn(tgt).d["params"]]
+            tnames = prog.param_names(tgt)
             ok2 = all(PARAM_ROLES[sym][perm[k]] == TARGET_ROLES[tgt][k] for k in range(len(perm))) and \
                 [n for n in tnames] == [n for n in tnames]
             ctx.check(R, ok2, f.where(), "argument roles agree with %s%s" % (tgt, TARGET_ROLES[tgt]), key="C19.R1:%s:roles" % sym)
@@ -94,7 +94,7 @@ def r1(ctx, prog):
     for tgt, roles in sorted(TARGET_ROLES.items()):
         if tgt not in prog.fns:
             continue
-        names = [p["n"] for p in prog.fn(tgt).d["params"]]
+        names = prog.param_names(tgt)
         norm = lambda n: {"n": "size", "al": "alignment", "newsize": "newsize", "s": "s"}.get(n, n)
         ok = len(names) == len(roles) and all(("align" in a) == ("align" in b) and (a in ("p", "s")) == (b in ("p", "s")) for a, b in zip(names, roles))
         ctx.check(R, ok, prog.fn(tgt).where(), "%s%s has the parameter order %s" % (tgt, names, roles), key="C19.R1:sig:%s" % tgt)
